@@ -166,6 +166,17 @@ CORPUS = [
 ]
 
 
+# qp.state() with a device (numeric only; the routing model does not describe the state post-processing): the returned
+# state must be the original circuit's state in the device wire order, also when the accumulated routing permutation is
+# not its own inverse (two or more SWAPs in a row)
+STATE_CASES = [
+    {"ops": [["RY", [0]], ["RY", [2]], ["CNOT", [0, 3]], ["RX", [1]], ["RX", [3]]], "meas": [["state", []]], "edges": [[0, 1], [1, 2], [2, 3]], "dev": [0, 1, 2, 3], "numeric": True, "kind": "state"},
+    {"ops": [["RY", [0]], ["RY", [3]], ["CNOT", [0, 3]], ["CNOT", [3, 0]], ["RX", [2]]], "meas": [["state", []]], "edges": [[0, 1], [1, 2], [2, 3]], "dev": [0, 1, 2, 3], "numeric": True, "kind": "state"},
+    {"ops": [["RY", [1]], ["CNOT", [0, 2]], ["RX", [0]]], "meas": [["state", []]], "edges": [[0, 1], [1, 2]], "dev": [0, 1, 2], "numeric": True, "kind": "state"},
+    {"ops": [["RY", [0]], ["RY", [4]], ["CNOT", [0, 4]], ["CRX", [4, 1]], ["RX", [2]]], "meas": [["expZ", [0]], ["state", []]], "edges": [[0, 1], [1, 2], [2, 3], [3, 4]], "dev": [0, 1, 2, 3, 4], "numeric": True, "kind": "state"},
+    {"ops": [["RY", [0]], ["RY", [2]], ["CZ", [0, 3]], ["CNOT", [1, 3]], ["RX", [3]]], "meas": [["state", []]], "edges": [[0, 1], [1, 2], [2, 3], [3, 0]], "dev": [0, 1, 2, 3], "numeric": True, "kind": "state"},
+]
+
 CAP = 25    # replay files written per kind of violation; totals are recorded in the evidence notes
 
 
@@ -193,6 +204,10 @@ def run(ctx):
             c["numeric"] = True
             k += 1
     obs = ctx.run_impl("c19_impl.py", {"cases": cases})
+    for sc, so in zip(STATE_CASES, ctx.run_impl("c19_impl.py", {"cases": STATE_CASES})):
+        if so.get("err") or so.get("num") is None or so["num"] > 1e-9:
+            ctx.violation("state:" + json.dumps(sc, sort_keys=True)[:300], {"case": sc, "observed": {k: so.get(k) for k in ("err", "num", "ops", "meas")}}, found_input=True,
+                          what="transpile with qp.state(): the post-processed state differs from the original circuit's state in the device wire order")
     terms = [g_case(c, o) for c, o in zip(cases, obs)]
     bad = ctx.coq_eval_cases("cases", "From PLV Require Import Disc.TranspileModel.", terms, "check_case", chunk=250)
     hist = {"ok": 0, "err": 0, "routed": 0, "routings": 0, "swaps": 0, "multi_swap_path": 0, "with_device": 0,
